@@ -1,6 +1,7 @@
 package main
 
 import (
+	"fmt"
 	"go/ast"
 	"go/token"
 	"go/types"
@@ -845,5 +846,82 @@ func init() {
 				}
 			}
 			return obs
+		}})
+}
+
+// TRO.designator-global — C02: funcall and apply are builtins (they run with
+// the CALLER's environment) and mark their own frame terminal, so when a tail
+// call through funcall is collapsed the call loop re-enters the builtin with
+// the environment of an OLDER call site.  That is harmless as long as
+// resolving a function designator does not depend on the lexical environment.
+// The resolver the functional builtins share, GetFunGlobal, must therefore
+// stay global-only: a lexical fallback makes `(funcall 'step …)` find a
+// different `step` — or none — depending on whether tail calls are eliminated.
+func init() {
+	register(&Rule{ID: "TRO.designator-global", Floor: 1,
+		Doc: "LEnv.GetFunGlobal — the function-designator resolver behind funcall, apply and the other functional builtins, which the tail-call loop re-enters with an older call site's environment — reaches no function that reads the lexical chain (the LEnv.scope / LEnv.parent fields): what a symbol designator names does not depend on which environment the builtin happens to run in",
+		Run: func(c *Ctx) []Obligation {
+			const rid = "TRO.designator-global"
+			fn, fd, pkg := c.LookupFunc("lisp.(*LEnv).GetFunGlobal")
+			scopeF := c.LookupField("lisp.LEnv.scope")
+			parentF := c.LookupField("lisp.LEnv.parent")
+			if fn == nil || scopeF == nil || parentF == nil {
+				return []Obligation{anchorMissing(rid, "LEnv.GetFunGlobal / LEnv.scope / LEnv.parent")}
+			}
+			u := FuncUnit{fn, fd, pkg}
+			decls := map[*types.Func]FuncUnit{}
+			for _, fu := range c.Funcs(func(p string) bool { return rel(p) == "lisp" }) {
+				if fu.Decl != nil && fu.Decl.Body != nil {
+					decls[fu.Obj] = fu
+				}
+			}
+			readsLexical := func(fu FuncUnit) ast.Node {
+				var hit ast.Node
+				ast.Inspect(fu.Decl.Body, func(n ast.Node) bool {
+					if se, ok := n.(*ast.SelectorExpr); ok && hit == nil {
+						if f := FieldOfSelector(fu.Pkg.TypesInfo, se); f == scopeF || f == parentF {
+							hit = se
+						}
+					}
+					return true
+				})
+				return hit
+			}
+			// closure of static callees
+			seen := map[*types.Func]bool{fn: true}
+			work := []*types.Func{fn}
+			var bad *types.Func
+			var via = map[*types.Func]*types.Func{}
+			for len(work) > 0 && bad == nil {
+				f := work[len(work)-1]
+				work = work[:len(work)-1]
+				fu, ok := decls[f]
+				if !ok {
+					continue
+				}
+				if readsLexical(fu) != nil {
+					bad = f
+					break
+				}
+				for _, ce := range callsIn(fu.Decl.Body, true) {
+					if g := originOf(Callee(fu.Pkg.TypesInfo, ce)); g != nil && !seen[g] {
+						// error construction (Errorf → location bookkeeping) is not a lookup
+						if strings.HasSuffix(g.Name(), "Errorf") || g.Name() == "ErrorAssociate" || g.Name() == "Error" {
+							continue
+						}
+						seen[g] = true
+						via[g] = f
+						work = append(work, g)
+					}
+				}
+			}
+			if bad != nil {
+				chain := FuncName(bad)
+				for p := via[bad]; p != nil; p = via[p] {
+					chain = FuncName(p) + " → " + chain
+				}
+				return []Obligation{mkOb(c, rid, u, "resolver is environment-free", fd, Violated, "GetFunGlobal reaches a read of the lexical chain ("+chain+"): a symbol designator can now name a flet/labels/let-bound function, and because a collapsed tail call re-enters funcall/apply with the environment of an older call site the name is resolved in the wrong scope — the program's value (or an unbound-symbol error) differs between eliminated and non-eliminated runs", true)}
+			}
+			return []Obligation{mkOb(c, rid, u, "resolver is environment-free", fd, Proved, fmt.Sprintf("%d functions reachable, none reads LEnv.scope / LEnv.parent", len(seen)), true)}
 		}})
 }
